@@ -338,37 +338,45 @@ def nsName (w : Nat → Bool) (s : Str) : Option Str :=
 def isHostChar (w : Nat → Bool) (c : Nat) : Bool :=
   w c || c == 46 || c == 58 || c == 64 || c == 91 || c == 93
 
+/-- `//([\w.:@\[\]]*)` followed by `/` and the namespace name up to the end: (group 2, group 3).
+    The host class does not contain `/`, so only the maximal run can be followed by `/`. -/
+def hostPart (w : Nat → Bool) (s : Str) : Option (Option Str × Str) :=
+  match s with
+  | 47 :: 47 :: r =>
+    match r.drop (spanLen (isHostChar w) r) with
+    | 47 :: r2 => (nsName w r2).map (fun n => (some (r.take (spanLen (isHostChar w) r)), n))
+    | _ => none
+  | _ => none
+
+/-- `(?:/|^/?)(\w+(?:/\w+)*)$` without authority: a `/` then the name, or (only at offset 0) the bare name -/
+def plainPart (w : Nat → Bool) (atStart : Bool) (s : Str) : Option (Option Str × Str) :=
+  let bare : Option (Option Str × Str) := if atStart then (nsName w s).map (fun n => (none, n)) else none
+  match s with
+  | 47 :: r =>
+    match nsName w r with
+    | some n => some (none, n)
+    | none => bare
+  | _ => bare
+
 /-- `(?://([\w.:@\[\]]*))?(?:/|^/?)(\w+(?:/\w+)*)$` tried at offset `k` of the parameter (`atStart` = k is 0).
     Result: (group 2 if it took part, group 3). -/
 def matchAuthorityAndName (w : Nat → Bool) (atStart : Bool) (s : Str) : Option (Option Str × Str) :=
-  let withHost : Option (Option Str × Str) :=
-    match s with
-    | 47 :: 47 :: r =>
-      let h := spanLen (isHostChar w) r
-      match r.drop h with
-      | 47 :: r2 => (nsName w r2).map (fun n => (some (r.take h), n))
-      | _ => none
-    | _ => none
-  match withHost with
+  match hostPart w s with
   | some m => some m
-  | none =>
-    match s with
-    | 47 :: r =>
-      match nsName w r with
-      | some n => some (none, n)
-      | none => if atStart then (nsName w s).map (fun n => (none, n)) else none
-    | _ => if atStart then (nsName w s).map (fun n => (none, n)) else none
+  | none => plainPart w atStart s
+
+/-- `([\w\-]+):` followed by the rest of the pattern: (group 1, group 2, group 3) -/
+def typePart (w : Nat → Bool) (param : Str) : Option (Option Str × Option Str × Str) :=
+  if spanLen (fun c => w c || c == 45) param = 0 then none
+  else match param.drop (spanLen (fun c => w c || c == 45) param) with
+    | 58 :: r => (matchAuthorityAndName w false r).map
+        (fun m => (some (param.take (spanLen (fun c => w c || c == 45) param)), m.1, m.2))
+    | _ => none
 
 /-- mirrors _mof_compiler.py: WBEM_URI_NAMESPACEPATH_REGEXP.match(param): the groups (1, 2, 3) of the match the
     backtracking matcher finds first, or none -/
 def matchNamespacePath (w : Nat → Bool) (param : Str) : Option (Option Str × Option Str × Str) :=
-  let n := spanLen (fun c => w c || c == 45) param
-  let withType : Option (Option Str × Option Str × Str) :=
-    if n = 0 then none
-    else match param.drop n with
-      | 58 :: r => (matchAuthorityAndName w false r).map (fun m => (some (param.take n), m.1, m.2))
-      | _ => none
-  match withType with
+  match typePart w param with
   | some m => some m
   | none => (matchAuthorityAndName w true param).map (fun m => (none, m.1, m.2))
 
